@@ -366,6 +366,9 @@ def requests(named):
     out["modify-unbound"] = ([["modify", None, [], None, [(S, Q, Z, "d"), (S, Q, O, "d")], A + [["opt", [tp(O, Q, Z)]]]]], 0)
     out["modify-literal-subject"] = ([["modify", None, [], None, [(V("b"), Q, S, "d"), (S, Q, V("b"), "d")], A + [["bind", ["=", S, O], "b"]]]], 0)
     out["modify-bnode"] = ([["modify", None, [], None, [(S, Q, ["b", "x"], "d"), (["b", "x"], Q, O, "d")], A]], 0)
+    # duplicate solutions (multiset semantics of WHERE): one fresh blank node per solution, duplicates included
+    out["modify-bnode-dup-solutions"] = ([["modify", None, [], None, [(S, Q, ["b", "x"], "d")], [["union", A, A]]]], 0)
+    out["modify-bnode-values-dup"] = ([["modify", None, [], None, [(S, Q, ["b", "x"], "d")], A + [["values", ["o"], [[C(0)], [C(0)]]]]]], 1)
     out["modify-where-sees-prestate"] = ([["modify", None, [], [(S, P, O, "d")], [(O, P, O, "d")], A + [["filter", ["notexists", [tp(O, P, O)]]]]]], 0)
     out["two-modifies"] = ([["modify", None, [], None, [(O, Q, S, "d")], A], ["modify", None, [], [(S, Q, O, "d")], None, [tp(S, Q, O)]]], 0)
     out["clear-default"] = ([["clear", "DEFAULT"]], 0)
